@@ -44,8 +44,10 @@ class HarnessError(Exception):
     """ The harness itself is broken: exit 2, never a verdict. """
 
 
-class CaseTimeout(Exception):
-    """ Watchdog: inconclusive, never a violation. """
+class CaseTimeout(BaseException):
+    """ Watchdog: inconclusive, never a violation.  A BaseException, so that
+    the `except Exception` clauses of the code under test (and of its
+    dependencies) do not turn the interruption into some other error. """
 
 
 class Abort(BaseException):
@@ -118,19 +120,32 @@ def spec_hash(spec):
 
 
 class _Watchdog:
+    """ Interrupt a case after `seconds` of CPU time of this process (the
+    machine's load does not matter), or ten times as much wall-clock time.
+    The timers keep firing every second until the case is left, and `fired`
+    records that they did: whatever the case raises after that point is the
+    interruption in another guise (an interrupted `sympify` reports "cannot
+    sympify", an interrupted comparison reports "not equal"), never a verdict.
+    """
     def __init__(self, seconds):
-        self.seconds = seconds
+        self.seconds, self.fired = seconds, False
 
     def _fire(self, *_):
+        self.fired = True
         raise CaseTimeout()
 
     def __enter__(self):
-        self.old = signal.signal(signal.SIGALRM, self._fire)
-        signal.alarm(self.seconds)
+        self.old = (signal.signal(signal.SIGVTALRM, self._fire),
+                    signal.signal(signal.SIGALRM, self._fire))
+        signal.setitimer(signal.ITIMER_VIRTUAL, self.seconds, 1)
+        signal.setitimer(signal.ITIMER_REAL, 10 * self.seconds, 1)
+        return self
 
     def __exit__(self, *exc):
-        signal.alarm(0)
-        signal.signal(signal.SIGALRM, self.old)
+        signal.setitimer(signal.ITIMER_VIRTUAL, 0)
+        signal.setitimer(signal.ITIMER_REAL, 0)
+        signal.signal(signal.SIGVTALRM, self.old[0])
+        signal.signal(signal.SIGALRM, self.old[1])
         return False
 
 
@@ -146,18 +161,23 @@ def _run_case(facet, pid, spec, stats, tier, exclusions=True):
     """ Run one case, fold the outcome into stats. Raises on failure. """
     from harness import findings
     stats["evaluations"] += 1
-    try:
-        with _Watchdog(facet.watchdog[0 if tier == "quick" else 1]):
-            info = facet.check(spec) or {}
-    except CaseTimeout:
+    dog = _Watchdog(facet.watchdog[0 if tier == "quick" else 1])
+
+    def timed_out():
         stats["inconclusive"].append(spec)
         if len(stats["inconclusive"]) > 4:
             stats["harness_error"] = "more than 4 cases of facet {} hit the "\
                 "watchdog in one shard: size bounds are wrong, or the code "\
                 "under test hangs".format(facet.name)
             raise Abort(stats["harness_error"])
-        return
+    try:
+        with dog:
+            info = facet.check(spec) or {}
+    except CaseTimeout:
+        return timed_out()
     except Exception as exc:  # noqa
+        if dog.fired:
+            return timed_out()
         kind, label = signature(exc)
         if kind == "harness":
             stats["harness_error"] = "".join(traceback.format_exception(
@@ -245,17 +265,33 @@ def replay_case(pid, fname, spec):
     """ Re-run one saved case without Hypothesis. Returns None or failure. """
     prop = load_property(pid)
     facet = prop["facets"][fname]
+    dog = _Watchdog(facet.watchdog[1])
     try:
-        with _Watchdog(facet.watchdog[1]):
+        with dog:
             facet.check(spec)
     except CaseTimeout:
         return dict(kind="timeout", label="timeout", message="")
     except Exception as exc:  # noqa
+        if dog.fired:
+            return dict(kind="timeout", label="timeout", message="")
         kind, label = signature(exc)
         return dict(kind=kind, label=label, message=str(exc)[:2000],
                     trace="".join(traceback.format_exception(
                         type(exc), exc, exc.__traceback__))[-3000:])
     return None
+
+
+def _confirmed(ctx, pid, fname, spec):
+    """ Does the failing case fail again, on its own, in a fresh process?
+    (Every check is a function of its case; a failure that does not come back
+    was caused by something else - an interruption, the machine - and is not
+    evidence against the code.) """
+    for _ in range(2):
+        with ctx.Pool(1, maxtasksperchild=1) as pool:
+            outcome = pool.apply(replay_case, (pid, fname, spec))
+        if outcome is not None and outcome["kind"] != "timeout":
+            return True
+    return False
 
 
 def write_replay(pid, fname, failure, seed, tier):
@@ -348,6 +384,13 @@ def run_property(pid, tier="quick", seed=1, only=None, exclusions=True,
             if failure["label"] in seen:
                 continue
             seen.add(failure["label"])
+            if not _confirmed(ctx, pid, fname, failure["spec"]):
+                # not a function of the saved input: nothing to report
+                m["unconfirmed"] = m.get("unconfirmed", 0) + 1
+                print("UNCONFIRMED property={} facet={} label={}: the case "
+                      "passes when replayed in a fresh process; counted as "
+                      "inconclusive".format(pid, fname, failure["label"]))
+                continue
             path = write_replay(pid, fname, failure, seed, tier)
             print("VIOLATION property={} replay={}".format(pid, path))
             print("  facet={} label={} :: {}".format(
@@ -387,6 +430,8 @@ def write_evidence(pid, prop, merged, tier, seed, wall, violations, truncated,
             excluded_by_known_finding=dict(m["known"]),
             inconclusive_timeouts=m["inconclusive"],
             inconclusive_samples=m["inconclusive_samples"][:2],
+            failures_not_reproduced_in_a_fresh_process=m.get(
+                "unconfirmed", 0),
             exhaustive=m["exhaustive"], shards=m["shards"],
             wall_s=round(m["wall"], 2), failures=len(m["failures"]))
         for sample in m["samples"][:2]:
